@@ -237,6 +237,7 @@ def real_gene_window(c):
         gi.set_reference_sequence(gi.all_read_region_start, gi.all_read_region_end, chr_record)
     loader = m.DP.ReadAssignmentLoader.__new__(m.DP.ReadAssignmentLoader)
     loader.unpickler = types.SimpleNamespace(chr_record=chr_record)
+    loader.reference_flank = 0      # set by __init__ since the --sqanti_output window repair (0 = run without --sqanti_output)
     loader.extend_reference_region(gi, [C15.mk_ra(j) for j in c["kept"]])
     return {"start": gi.all_read_region_start, "ref": gi.reference_region or ""}
 
